@@ -86,6 +86,48 @@ Model_apdu(apdu) == ParseApdu(apdu)
 Model_u2f_encode(resp, pre, S) == AppendU2f(pre, Ctap1ResponseBytes(resp), S)
 
 (***************************************************************************)
+(* Table look-ups (stand-alone conversions of the library)                 *)
+(***************************************************************************)
+\* Operation::try_from(u8), u8::from(Operation), VendorOperation::try_from(u8).
+\* The stand-alone vendor constructor is left unasserted on the two codes FIDO reassigned.
+Model_optable(c) ==
+    [recognised |-> Recognised(c),
+     name |-> (IF Recognised(c) THEN OperationOf(c) ELSE ""),
+     back |-> (IF Recognised(c) THEN c ELSE -1),
+     into_u8_same |-> TRUE]
+    @@ (IF c \in {64, 65} THEN << >>
+        ELSE [vendor_ok |-> CommandTable[c].kind = "vendor",
+              vendor_back |-> (IF CommandTable[c].kind = "vendor" THEN c ELSE -1)])
+
+EnumStrTable(t) ==
+    CASE t = "Version" -> VersionNames [] t = "Extension" -> ExtensionNames
+      [] t = "Transport" -> TransportNames [] t = "Format" -> FormatNames
+EnumU8Table(t) == CASE t = "CredProtect" -> CredProtectPolicies [] t = "ControlByte" -> U2fControlBytes
+
+Model_enum_str(t, str) == [ok |-> str \in EnumStrTable(t), back |-> (IF str \in EnumStrTable(t) THEN str ELSE << >>)]
+Model_enum_u8(t, n)    == [ok |-> n \in EnumU8Table(t), back |-> (IF n \in EnumU8Table(t) THEN n ELSE -1)]
+
+PermissionMask == 63
+Model_permissions(n) == PermissionBits @@ [valid |-> n <= PermissionMask]
+
+Model_status_codes ==
+    [codes |-> StatusCode, flag_up |-> FLAG_UP, flag_uv |-> FLAG_UV, flag_at |-> FLAG_AT, flag_ed |-> FLAG_ED,
+     flag_all |-> FLAG_UP + FLAG_UV + FLAG_AT + FLAG_ED, u2f_no_error |-> 36864]
+
+Model_u2f_register_new(c) ==
+    [header |-> c.header, publicKey |-> UncompressedPoint(c.key.x, c.key.y), keyHandle |-> c.keyHandle,
+     cert |-> c.cert, sig |-> c.sig]
+
+LookupOps == {"optable", "enum_str", "enum_u8", "permissions", "status_codes", "u2f_register_new"}
+Model_lookup(c) ==
+    CASE c.op = "optable" -> Model_optable(c.c)
+      [] c.op = "enum_str" -> Model_enum_str(c.table, c.s)
+      [] c.op = "enum_u8" -> Model_enum_u8(c.table, c.n)
+      [] c.op = "permissions" -> Model_permissions(c.n)
+      [] c.op = "status_codes" -> Model_status_codes
+      [] c.op = "u2f_register_new" -> Model_u2f_register_new(c)
+
+(***************************************************************************)
 (* Dispatch: the request variant, the scripted handler outcome             *)
 (*   script = [ok |-> TRUE] (handler succeeds with a canned value)         *)
 (*          | [ok |-> FALSE, err |-> n] (handler fails with status n)      *)
@@ -133,6 +175,12 @@ Decode1 ==
 DecodeType ==
     /\ phase = "received" /\ case.op = "decode_type"
     /\ req' = Model_decode_type(case.type, case.bytes)
+    /\ phase' = "decoded"
+    /\ UNCHANGED <<case, wire, calls, ret, buf, stale, nexch>>
+
+Lookup ==
+    /\ phase = "received" /\ case.op \in LookupOps
+    /\ req' = Model_lookup(case)
     /\ phase' = "decoded"
     /\ UNCHANGED <<case, wire, calls, ret, buf, stale, nexch>>
 
@@ -188,7 +236,7 @@ SerializeAuthDataAct ==
 \* the exchange is over; the transport keeps its buffer (stale bytes and all)
 \* the last phase of the exchange that `case` describes
 Terminal ==
-    \/ phase = "decoded" /\ case.op \in {"decode2", "apdu", "decode_type"}
+    \/ phase = "decoded" /\ case.op \in {"decode2", "apdu", "decode_type"} \cup LookupOps
     \/ phase = "returned" /\ case.op = "dispatch"
     \/ phase = "encoded"
 
@@ -200,7 +248,7 @@ NextExchange ==
 
 Next ==
     \/ \E c \in Cases : HostSends(c)
-    \/ Decode2 \/ Decode1 \/ DecodeType \/ Call \/ Reject
+    \/ Decode2 \/ Decode1 \/ DecodeType \/ Lookup \/ Call \/ Reject
     \/ Encode2 \/ Encode1 \/ EncodeType \/ SerializeAuthDataAct
     \/ NextExchange
 
@@ -232,13 +280,15 @@ VecOf ==
       [] case.op = "authdata" ->
             [op |-> "authdata", tag |-> case.tag, in |-> case.in, exp |-> ret]
       [] case.op = "apdu" ->
-            [op |-> "apdu", tag |-> case.tag, wire |-> wire, exp |-> req]
+            [op |-> "apdu", tag |-> case.tag, wire |-> wire, exp |-> req @@ [same_owned |-> TRUE]]
       [] case.op = "u2f_encode" ->
             [op |-> "u2f_encode", tag |-> case.tag, resp |-> case.resp, pre |-> case.pre, cap |-> case.cap,
              exp |-> [ok |-> ret.ok, keep |-> ret.keep, prefix |-> SubSeq(ret.buf, 1, ret.keep)]]
       [] case.op = "dispatch" ->
-            [op |-> "dispatch", tag |-> case.tag, variant |-> case.variant, wire |-> case.wire,
-             script |-> case.script, hasLb |-> case.hasLb, entry |-> case.entry, exp |-> ret]
+            [op |-> "dispatch", tag |-> case.tag, proto |-> case.proto, variant |-> case.variant,
+             wire |-> case.wire, script |-> case.script, hasLb |-> case.hasLb,
+             exp |-> ret @@ [args_same |-> TRUE, value_same |-> TRUE, rpc_same |-> TRUE]]
+      [] case.op \in LookupOps -> case @@ [exp |-> req]
       [] case.op = "exchange" ->
             [op |-> "exchange", tag |-> case.tag, wire |-> case.wire, script |-> case.script,
              hasLb |-> case.hasLb, respv |-> case.respv, cap |-> case.cap,
@@ -288,6 +338,19 @@ KeyAttribution ==
 HostCanonical ==
     phase = "received" /\ case.op = "decode2" /\ case.sv # << >> => IsCanonical(SubSeq(wire, 2, Len(wire)))
 
+
+(***************************************************************************)
+(* C05: a request carrying a single fault is rejected with exactly the     *)
+(* status the kind of fault calls for (the table is in the scenario's      *)
+(* ExpectedStatus, the decision in the streaming decoder); in particular a *)
+(* message lacking a required parameter is never accepted.                 *)
+(***************************************************************************)
+StatusByFaultKind ==
+    phase = "decoded" /\ case.op = "decode2" /\ "fault" \in DOMAIN case =>
+        /\ ~req.ok
+        /\ req.status = (CASE case.fault = "command" -> ST_InvalidCommand
+                           [] case.fault = "missing" -> ST_MissingParameter
+                           [] OTHER -> ST_InvalidCbor)
 
 (***************************************************************************)
 (* C02 / C03 / C17 on the model.                                           *)
